@@ -43,6 +43,21 @@ as a MATRIX or as forward/adjoint FUNCTIONS; default geometries, MappedGeometry 
 StepExpansion domain, KLExpansion domain - in the last four the operator acts on function values; original of the cell = the
 joint, y, or the model) put every consumer route on every model representation.
 
+Wrapper family and attribute assignment.  The specials contain EVERY distribution class of the library that keeps another
+distribution object inside and forwards to it (Lognormal; Regularized / Constrained / Nonnegative Gaussian and GMRF;
+RegularizedUnboundedUniform; JointGaussianSqrtPrec with its lists of parameter blocks), each in the variants the class admits:
+all parameters numbers / second parameter a function of d / mean a plain function of m and no geometry, so that the dimension
+is unknown until conditioning and sibling copies are conditioned on m of 4 and of 2 entries; and joint worlds ``wrapj:<class>``
+y | x ~ N(A x, c I) with such a prior x (original = the joint; y, x, A tracked).  In these worlds the fingerprint also reads what
+the samplers read (sqrtprec, sqrtprecTimesMean, the parameters / dim of the prior a Posterior carries and of the distribution a
+Likelihood carries) because the log-density of an implicit prior is not a number.  ``assign`` = a parameter the class offers a
+setter for (a public mutable variable that currently holds numbers) := another value, on the original, on any derived
+distribution and, in joint worlds, on the factors the joint was built from.  The assigned object and its VIEWS (the Likelihood
+made by to_likelihood of it and the JointDistribution it was given to hold the very object) legitimately change; EVERY OTHER live
+object must keep its fingerprint; the assigned object must read the value back, must equal (complete fingerprint) the object
+obtained by the same derivation from an original BUILT with that value, a Likelihood view must equal the view made now, and
+assigning the old value back must restore it.
+
 The depth-first search keeps live objects (legitimate exactly as long as nothing was altered - which is what is
 re-checked after every step); every detected alteration is confirmed by replaying its history on a FRESH world
 before it is reported, and the live world is rebuilt from scratch before the search continues.
@@ -55,11 +70,21 @@ from vfw import refs
 from checks import _graphs as GR
 
 PROPERTY = "C11"
-RULE = ("cells = original object (every joint and every factor of graphs G1..G10, 10 specials, 30 linear Bayesian worlds = "
+RULE = ("cells = original object (every joint and every factor of graphs G1..G10, 24 specials = 2 models + 2 plain distributions of unknown "
+        "dimension + the wrapper family {Lognormal, RegularizedGaussian, ConstrainedGaussian, NonnegativeGaussian, RegularizedGMRF, "
+        "ConstrainedGMRF, NonnegativeGMRF} x {all parameters numbers | second parameter a function | mean a function and no geometry: "
+        "dimension unknown until conditioned, sibling copies conditioned on values of 4 and of 2 entries (refused by the GMRF classes "
+        "at construction)} + RegularizedUnboundedUniform + JointGaussianSqrtPrec; 8 joint worlds wrapj = JointDistribution(y | x ~ "
+        "N(A x, c I), x ~ wrapper prior); 30 linear Bayesian worlds = "
         "{operator given as matrix | as forward/adjoint functions} x {default geometries | MappedGeometry domain | MappedGeometry "
         "range | StepExpansion domain | KLExpansion domain} x {original = joint | data distribution | model}) x value catalogue x "
         "depth; inside a cell all sequences of {cond(S), call0, to_likelihood, model(dist), gibbs_new, gibbs_old, mh_new, mh_old, reads, "
-        "refusals, consumers} up to the depth are executed on the original and on every pool member derived so far; refusals = "
+        "refusals, consumers, assign(parameter)} up to the depth are executed on the original and on every pool member derived so far "
+        "(assign also on the tracked factors of a joint original); assign = every public mutable variable of a distribution that "
+        "holds numbers := twice its value (a zero vector: + 1/2): the assigned object and its views (to_likelihood of it, the "
+        "joint holding it) are re-baselined, every other live object must keep its fingerprint, the assigned object must read the "
+        "value back, equal the same derivation from an original BUILT with the value (worlds built by World.mk), its Likelihood "
+        "view must equal the view made now, and the old value assigned back must restore it; refusals = "
         "{conditioning with an unknown keyword | unknown next to a valid keyword | surplus positional | variable given twice | "
         "wrong-size value, logd with a variable missing (positional | keyword), gradient without argument, sample of a "
         "conditional; models: wrong-size forward / gradient / adjoint, unknown keyword} - refused or accepted, the outcome on an "
@@ -81,6 +106,11 @@ BOUND = {
              "depth 2 for the 30 linear Bayesian worlds; refusals / consumers close a history (nothing but the read-only "
              "operations of the fingerprints follows them in that history; the live world then continues with the sibling "
              "histories), on every target and after every history shorter than the depth; "
+             "new wrapper-family specials: depth 3 for the classes with code of their own (Lognormal, RegularizedGaussian, "
+             "RegularizedGMRF), depth 2 for the Constrained / Nonnegative classes (constructor forwarding only), RegularizedUnboundedUniform "
+             "and JointGaussianSqrtPrec; wrapj joint worlds for Lognormal, RegularizedGaussian, RegularizedGMRF at depth 2; assign is in "
+             "the alphabet of the wrapper-family specials, the wrapj worlds and the factors G1.x, G1.d, and closes a history (the old "
+             "value is assigned back before the sibling histories continue); "
              "1 value catalogue (seed%3); conditioning alphabet = all non-empty subsets of the target's parameters "
              "(<=3 parameters) or singletons + full set (>=4); horizon run: 200 alternating re-conditionings of G1; "
              "naming: N1 (focus y, x) and N2 (focus z, s) to depth 3, N3 (focus y, d) to depth 2, 1 catalogue; routes: inferred names x "
@@ -88,7 +118,12 @@ BOUND = {
              "entries (class, name, parameter names, conditioning variables, logd by keyword, get_density by name); join "
              "combines the target only with the un-conditioned other originals",
     "thorough": "refusals / consumers are ordinary members of the alphabet (any position, every target) in all cells of depth <= 3 "
-                "and close a history (every target) in the depth-4 cells; the 30 linear Bayesian worlds at depth 3 in 3 catalogues; "
+                "and close a history (every target) in the depth-4 cells; assign is in the alphabet of every factor and special cell "
+                "and of the joint cells of catalogue 0 (tracked factors), stays in force for the whole sub-tree below it in cells of "
+                "depth <= 3 (later operations on an assigned original are compared with a fresh world that received the same "
+                "assignments; the built-with-the-value reference is taken for the first assignment of a history) and closes a history "
+                "in the depth-4 cells; all 20 wrapper-family specials and the 8 wrapj worlds at depth 3 in 3 catalogues (the 6 older "
+                "wrapper specials at depth 4 in catalogue 0); the 30 linear Bayesian worlds at depth 3 in 3 catalogues; "
                 "3 value catalogues at depth 3 for every factor and special; joints at depth 3 in catalogue 0 (G3, G9 in all "
                 "catalogues) and depth 2 otherwise; in addition depth 4 for factors with <=2 "
                 "parameters and for the specials in catalogue 0; horizon run: 2000 alternating "
@@ -102,7 +137,18 @@ ASSUMPTIONS = [
     "everything else exactly; exception TYPES are part of the fingerprint, messages are not",
     "operations are executed on live objects; soundness of re-using a world across sibling histories rests on the "
     "fingerprints re-taken after every step; every report is first reproduced on a fresh world",
-    "enable_FD/disable_FD and attribute assignment are documented mutators and are not in the operation alphabet",
+    "enable_FD on a derived object and attribute assignment are documented mutators of THEIR object: they are in the alphabet, the "
+    "object itself and the views that hold it (Likelihood of to_likelihood, JointDistribution of a factor) are re-baselined, everything "
+    "else must not notice; one assigned value per parameter (2 x value, zero vector + 1/2), only parameters holding numbers (a "
+    "parameter that is a function or unset is not assigned), at most one assignment per (object, parameter) in a history",
+    "the reference 'freshly built with the assigned value' exists for the worlds this module builds through World.mk (specials, "
+    "linear and wrapj worlds) and for the first assignment of a history; in graph cells (factors of G1..G10) the assigned object is "
+    "judged by read-back, restore and the fresh-world replay of the same history only",
+    "wrapper worlds: the extra fingerprint entries (sqrtprec, sqrtprecTimesMean, prior / carried-distribution parameters) are read "
+    "in the wrapper-family and wrapj worlds only; an alteration of a nan-valued implicit prior inside a graph cell would be seen "
+    "through its public mutable attributes only",
+    "a cell whose fresh original answers the read-only operations of the fingerprint differently the second time is reported once "
+    "(operation 'fingerprint') and not explored further",
     "refused operations: one representative per kind of malformed call (one unknown keyword, one surplus argument, the first "
     "parameter given twice / with 2 entries too many); whether the library refuses or accepts is not judged (only that it does "
     "what it does on a fresh world); objects an accepted malformed call returns are dropped, not explored further",
@@ -132,6 +178,30 @@ JOINTS = GR.ORDER + GR.ORDER5
 QUICK_SHALLOW = {("G2", "y"), ("G5", "y2"), ("G7", "y"), ("G8", "y"), ("G9", "y"), ("G10", "y")}
 SPECIALS = ["lognormal", "lognormal-cond", "reggauss", "reggauss-cond", "reggmrf-cond", "nonneggmrf", "model-linear", "model-nonlinear",
             "unknown-dim-normal", "unknown-dim-gamma"]
+# wrapper family: every distribution class of the library that keeps ANOTHER distribution object (or the parameter blocks of
+# several) inside and forwards to it - Lognormal (inner Gaussian), Regularized / Constrained / Nonnegative Gaussian (inner
+# Gaussian, write-through setters), Regularized / Constrained / Nonnegative GMRF (inner GMRF), RegularizedUnboundedUniform
+# (inner zero-precision Gaussian), JointGaussianSqrtPrec (lists of means / square-root precisions) - each in the variants the
+# class admits:  known = all parameters numbers (no conditioning variable, dimension known);  cond = the second parameter a
+# function of d (dimension known);  unk = mean a plain function of m and no geometry (dimension unknown until conditioned;
+# sibling copies conditioned on m of 4 and of 2 entries).  The GMRF classes refuse the unk construction (a GMRF needs its
+# geometry at construction); RegularizedUnboundedUniform and JointGaussianSqrtPrec have no parameter that may be a function.
+# name of the special -> (class key, variant)
+WRAP = {
+    "lognormal": ("lognormal", "known"), "lognormal-cond": ("lognormal", "cond"), "unknown-dim-lognormal": ("lognormal", "unk"),
+    "reggauss": ("reggauss", "known"), "reggauss-cond": ("reggauss", "cond"), "unknown-dim-reggauss": ("reggauss", "unk"),
+    "constrgauss": ("constrgauss", "known"), "constrgauss-cond": ("constrgauss", "cond"), "unknown-dim-constrgauss": ("constrgauss", "unk"),
+    "nonneggauss": ("nonneggauss", "known"), "nonneggauss-cond": ("nonneggauss", "cond"), "unknown-dim-nonneggauss": ("nonneggauss", "unk"),
+    "reggmrf": ("reggmrf", "known"), "reggmrf-cond": ("reggmrf", "cond"),
+    "constrgmrf": ("constrgmrf", "known"), "constrgmrf-cond": ("constrgmrf", "cond"),
+    "nonneggmrf": ("nonneggmrf", "known"), "nonneggmrf-cond": ("nonneggmrf", "cond"),
+    "reguniform": ("reguniform", "known"), "jointsqrtprec": ("jointsqrtprec", "known"),
+}
+WRAP_NEW = [n for n in WRAP if n not in SPECIALS]
+# classes with code of their own (the Constrained / Nonnegative classes only forward their constructor arguments)
+WRAP_OWN_CODE = ("lognormal", "reggauss", "reggmrf")
+# joint worlds  y | x ~ N(A x, c I),  x ~ <wrapper prior, known variant>:  original = JointDistribution(y, x); y, x, A tracked
+WRAPJ_CLASSES = ["lognormal", "reggauss", "constrgauss", "nonneggauss", "reggmrf", "constrgmrf", "nonneggmrf", "reguniform"]
 # linear Bayesian worlds  y | x ~ N(A x, c I),  x ~ N(0, c0 I):  how the LinearModel is defined x geometry x focus original
 LIN_DEFS = ["mat", "fun"]                                   # operator given as a matrix | as forward/adjoint callables
 LIN_GEOMS = ["id", "mapdom", "maprange", "step", "kl"]      # default geometries | MappedGeometry on the domain | on the range |
@@ -173,6 +243,13 @@ def cells(tier, seed):
             out.append({"kind": "special", "name": sp, "cat": k, "depth": 3 if (q or k != cats[0]) else 4})
         for sp in lin_specials(tier):
             out.append({"kind": "special", "name": sp, "cat": k, "depth": 2 if q else 3})
+        for sp in WRAP_NEW:
+            own = WRAP[sp][0] in WRAP_OWN_CODE
+            out.append({"kind": "special", "name": sp, "cat": k, "depth": (3 if own else 2) if q else 3})
+        for cl in WRAPJ_CLASSES:
+            if q and cl not in WRAP_OWN_CODE:
+                continue
+            out.append({"kind": "special", "name": "wrapj:" + cl, "cat": k, "depth": 2 if q else 3})
     # naming cells: how the random-variable name is given (explicit name= / inferred from the variable the object is
     # assigned to) x when the name is first read; one cell per (world, focus original, first operation on the focus)
     for wid in NAMING_ORDER:
@@ -190,6 +267,14 @@ def cells(tier, seed):
     for c in out:
         if c["kind"] in ("joint", "factor", "special"):
             c["closing"] = "leaf" if q else ("full" if c["depth"] <= 3 else "leaf")
+            # attribute assignment (a parameter of a live object := another value):  "leaf" = it closes a history (it is undone
+            # before the sibling histories continue), "full" = it stays in force for the whole sub-tree below it
+            wrap = c["kind"] == "special" and (c["name"] in WRAP or c["name"].startswith("wrapj:"))
+            if q:
+                if wrap or (c["kind"] == "factor" and c["graph"] == "G1" and c["name"] in ("x", "d")):
+                    c["assign"] = "leaf"
+            elif c["kind"] != "joint" or c["cat"] == cats[0]:
+                c["assign"] = "full" if c["depth"] <= 3 else "leaf"
     # longest cells first (better pool utilisation); order is deterministic
     out.sort(key=lambda c: (-(c.get("depth", 9) * 10 + (5 if c["kind"] == "joint" else 0)), str(sorted(c.items()))))
     return out
@@ -202,9 +287,15 @@ class World:
     """objs[0] is the original; objs[1:ntracked] are tracked-only helpers/factors (never operation targets,
     except helper distributions used as arguments of model(dist)); objs[ntracked:] is the pool."""
 
-    def __init__(self, cell, _given=None):
+    def __init__(self, cell, _given=None, override=None):
         self.cell = cell
         k = cell["cat"]
+        # override = (object index, parameter name, value): that object is BUILT with the parameter set to the value (the
+        # reference "a freshly built object with that value" of the assignment operation); only for objects made by mk()
+        self.override = override
+        self.override_used = False
+        self.inforce = []    # attribute assignments currently in force: [object index, attribute, old value, {index: fingerprint before}]
+        self.extra_props = False
         self.objs = []
         self.role = []       # 'original' | 'tracked' | 'pool'
         self.src = []        # index of the object this one was derived from
@@ -253,6 +344,25 @@ class World:
     def truncate(self, n):
         del self.objs[n:], self.role[n:], self.src[n:], self.fp[n:]
 
+    def mk(self, ctor, _slot=None, **kw):
+        """construct the object that will be stored at index _slot (default: the one add() stores next); an override addressed
+        to that index replaces one constructor keyword"""
+        ov = self.override
+        if ov is not None and ov[0] == (len(self.objs) if _slot is None else _slot) and ov[1] in kw:
+            kw[ov[1]] = ov[2]
+            self.override_used = True
+        return ctor(**kw)
+
+    def views_of(self, i):
+        """objects that by construction ARE object i seen through another interface (they hold object i itself, not a copy):
+        the Likelihood made by to_likelihood of a conditional distribution, and the JointDistribution a tracked factor was
+        given to.  Everything else derived from i is a copy."""
+        out = [j for j in range(self.ntracked, len(self.objs))
+               if self.src[j] == i and self.how.get(j) == "to_likelihood" and kind_of(self.objs[j]) == "lik"]
+        if 0 < i < self.ntracked and kind_of(self.objs[0]) == "joint" and kind_of(self.objs[i]) == "dist":
+            out.append(0)
+        return out
+
     def special(self, name, k):
         import cuqi
         D = cuqi.distribution
@@ -260,30 +370,56 @@ class World:
         C2 = refs.spd_matrix(2, k)
         m3 = refs.dyadic_vec(3, k + 2, scale=0.125)
         pos = lambda v: np.abs(v) + 0.25  # noqa
+        IP = cuqi.implicitprior
+        if name in WRAP or name.startswith("wrapj:"):
+            self.extra_props = True      # fingerprints also read what the samplers read: sqrtprec, sqrtprecTimesMean, prior / inner parameters
         if name == "lognormal":
-            self.add(D.Lognormal(m2, C2, name="l"), "original")
+            self.add(self.mk(D.Lognormal, mean=m2, cov=C2, name="l"), "original")
             self.vals = {"l": pos(refs.dyadic_vec(2, k + 3))}
             self.valsB = {"l": pos(refs.dyadic_vec(2, k + 6))}
         elif name == "lognormal-cond":
-            self.add(D.Lognormal(lambda u: u * np.array([0.5, -0.25]), C2, name="l"), "original")
+            self.add(self.mk(D.Lognormal, mean=lambda u: u * np.array([0.5, -0.25]), cov=C2, name="l"), "original")
             self.vals = {"l": pos(refs.dyadic_vec(2, k + 3)), "u": [1.0, 1.25, 2.5][k]}
             self.valsB = {"l": pos(refs.dyadic_vec(2, k + 6)), "u": [0.75, 2.0, 1.5][k]}
         elif name == "reggauss":
-            self.add(cuqi.implicitprior.RegularizedGaussian(m3, 0.5 + 0.25 * k, constraint="nonnegativity", name="x"), "original")
+            self.add(self.mk(IP.RegularizedGaussian, mean=m3, cov=0.5 + 0.25 * k, constraint="nonnegativity", name="x"), "original")
             self.vals = {"x": pos(refs.dyadic_vec(3, k))}
             self.valsB = {"x": pos(refs.dyadic_vec(3, k + 4))}
         elif name == "reggauss-cond":
-            self.add(cuqi.implicitprior.RegularizedGaussian(m3, lambda d: 1.0 / d, constraint="nonnegativity", geometry=3, name="x"), "original")
+            self.add(self.mk(IP.RegularizedGaussian, mean=m3, cov=lambda d: 1.0 / d, constraint="nonnegativity", geometry=3, name="x"), "original")
             self.vals = {"x": pos(refs.dyadic_vec(3, k)), "d": GR.H3[0][k]}
             self.valsB = {"x": pos(refs.dyadic_vec(3, k + 4)), "d": GR.H3[1][k]}
         elif name == "reggmrf-cond":
-            self.add(cuqi.implicitprior.RegularizedGMRF(m3, lambda d: d, regularization="l1", strength=2.0, name="x"), "original")
+            self.add(self.mk(IP.RegularizedGMRF, mean=m3, prec=lambda d: d, regularization="l1", strength=2.0, name="x"), "original")
             self.vals = {"x": refs.dyadic_vec(3, k), "d": GR.H3[0][k]}
             self.valsB = {"x": refs.dyadic_vec(3, k + 4), "d": GR.H3[1][k]}
         elif name == "nonneggmrf":
-            self.add(cuqi.implicitprior.NonnegativeGMRF(m3, 1.5 + k, name="x"), "original")
+            self.add(self.mk(IP.NonnegativeGMRF, mean=m3, prec=1.5 + k, name="x"), "original")
             self.vals = {"x": pos(refs.dyadic_vec(3, k))}
             self.valsB = {"x": pos(refs.dyadic_vec(3, k + 4))}
+        elif name in WRAP:
+            cl, variant = WRAP[name]
+            nm = "l" if cl == "lognormal" else "x"
+            self.add(self.wrapper(cl, variant, k, nm), "original")
+            if variant == "unk":
+                # dimension unknown until conditioned: sibling copies are conditioned on m of 4 entries (cond) and of 2 (condB)
+                self.vals = {nm: pos(refs.dyadic_vec(4, k)), "m": refs.dyadic_vec(4, k + 1, scale=0.25)}
+                self.valsB = {nm: pos(refs.dyadic_vec(4, k + 3)), "m": refs.dyadic_vec(4, k + 5, scale=0.25)}
+                self.valsC = {"m": refs.dyadic_vec(2, k + 2, scale=0.25)}
+                self.valsCx = {nm: pos(refs.dyadic_vec(2, k + 4))}
+                self.use_condB = True
+            else:
+                self.vals = {nm: pos(refs.dyadic_vec(3, k)), "d": GR.H3[0][k]}
+                self.valsB = {nm: pos(refs.dyadic_vec(3, k + 4)), "d": GR.H3[1][k]}
+        elif name.startswith("wrapj:"):
+            _A = cuqi.model.LinearModel(refs.full_matrix(2, 3, k))
+            _y = self.mk(D.Gaussian, _slot=1, mean=_A, cov=0.25 + 0.125 * k, name="y")
+            _x = self.wrapper(name.split(":")[1], "known", k, "x", _slot=2)
+            self.add(D.JointDistribution(_y, _x), "original")
+            for _o in (_y, _x, _A):
+                self.add(_o, "tracked")
+            self.vals = {"x": pos(refs.dyadic_vec(3, k + 1, scale=0.25)), "y": refs.dyadic_vec(2, k + 2, scale=0.5)}
+            self.valsB = {"x": pos(refs.dyadic_vec(3, k + 4, scale=0.25)), "y": refs.dyadic_vec(2, k + 6, scale=0.5)}
         elif name == "model-linear":
             _A = refs.full_matrix(2, 3, k)
             self.add(cuqi.model.LinearModel(_A), "original")
@@ -301,19 +437,19 @@ class World:
             # an original whose dimension is unknown until it is conditioned; it is conditioned with values of DIFFERENT
             # sizes (probe A: 4 entries, probe B: 1 entry) - copies must not inherit each other's inferred geometry
             if name == "unknown-dim-normal":
-                self.add(D.Normal(lambda m: m, 1.0, name="x"), "original")
+                self.add(self.mk(D.Normal, mean=lambda m: m, std=1.0, name="x"), "original")
                 self.vals = {"x": refs.dyadic_vec(4, k, scale=0.25), "m": refs.dyadic_vec(4, k + 1, scale=0.25)}
                 self.valsB = {"x": refs.dyadic_vec(4, k + 3, scale=0.25), "m": refs.dyadic_vec(4, k + 5, scale=0.25)}
                 self.valsC = {"m": np.array([0.5 + 0.25 * k])}
             else:
-                self.add(D.Gamma(lambda a: a, lambda b: b, name="x"), "original")
+                self.add(self.mk(D.Gamma, shape=lambda a: a, rate=lambda b: b, name="x"), "original")
                 self.vals = {"x": pos(refs.dyadic_vec(4, k)), "a": pos(refs.dyadic_vec(4, k + 1)) + 1, "b": pos(refs.dyadic_vec(4, k + 2))}
                 self.valsB = {"x": pos(refs.dyadic_vec(4, k + 3)), "a": pos(refs.dyadic_vec(4, k + 4)) + 1, "b": pos(refs.dyadic_vec(4, k + 5))}
                 self.valsC = {"a": np.array([2.0 + 0.5 * k]), "b": np.array([1.5])}
             self.use_condB = True
         elif name.startswith("lin:"):
             _, df, gm, fc = name.split(":")
-            _A, _x, _y = lin_world(df, gm, k)
+            _A, _x, _y = lin_world(df, gm, k, self.mk, {"joint": (2, 1), "y": (1, 0), "model": (2, 1)}[fc])
             if fc == "joint":
                 self.add(D.JointDistribution(_y, _x), "original")
                 for _o in (_y, _x, _A):
@@ -334,10 +470,45 @@ class World:
             raise ValueError(name)
 
 
-def lin_world(df, gm, k):
+def _wrapper(self, cl, variant, k, nm, _slot=None):
+    """one object of the wrapper family (see WRAP): class ``cl`` in variant known | cond | unk, random variable ``nm``"""
+    import cuqi
+    IP = cuqi.implicitprior
+    D = cuqi.distribution
+    m3 = refs.dyadic_vec(3, k + 2, scale=0.125)
+    if cl == "reguniform":
+        return self.mk(IP.RegularizedUnboundedUniform, _slot=_slot, geometry=cuqi.geometry.Continuous1D(3), regularization="l1", strength=2.0, name=nm)
+    if cl == "jointsqrtprec":
+        return self.mk(D.JointGaussianSqrtPrec, _slot=_slot, means=[m3.copy(), refs.dyadic_vec(3, k + 4, scale=0.125)],
+                       sqrtprecs=[refs.spd_matrix(3, k), (1.5 + 0.5 * k) * np.eye(3)], name=nm)
+    gmrf = cl.endswith("gmrf")
+    kw = {"name": nm}
+    kw["mean"] = (lambda m: m) if variant == "unk" else m3
+    second = "prec" if gmrf else "cov"
+    if variant == "cond":
+        kw[second] = (lambda d: d) if gmrf else (lambda d: 1.0 / d)
+        if not gmrf:
+            kw["geometry"] = 3
+    else:
+        kw[second] = (1.5 + k) if gmrf else (0.5 + 0.25 * k)
+    if cl == "lognormal":
+        return self.mk(D.Lognormal, _slot=_slot, **kw)
+    if cl in ("reggauss", "reggmrf"):
+        kw.update(regularization="l1", strength=2.0)
+    elif cl in ("constrgauss", "constrgmrf"):
+        kw.update(constraint="box", lower_bound=0.0, upper_bound=2.0)
+    ctor = {"reggauss": IP.RegularizedGaussian, "constrgauss": IP.ConstrainedGaussian, "nonneggauss": IP.NonnegativeGaussian,
+            "reggmrf": IP.RegularizedGMRF, "constrgmrf": IP.ConstrainedGMRF, "nonneggmrf": IP.NonnegativeGMRF}[cl]
+    return self.mk(ctor, _slot=_slot, **kw)
+
+
+World.wrapper = _wrapper
+
+
+def lin_world(df, gm, k, mk, slots):
     """LinearModel _A (3 parameters -> 2 data) defined by a matrix or by forward/adjoint callables, with default geometries or a
     non-identity geometry on one side (the operator then acts on FUNCTION values); x ~ N(m0, c0 I) on the domain geometry;
-    y | x ~ N(A x, c I)."""
+    y | x ~ N(A x, c I).  ``mk`` = World.mk, ``slots`` = indices (of x, of y) the objects will be stored at."""
     import cuqi
     G = cuqi.geometry
     dg, rg, nf = None, None, 3
@@ -359,8 +530,9 @@ def lin_world(df, gm, k):
                                     domain_geometry=dg if dg is not None else nf)
     else:
         raise ValueError(df)
-    _x = cuqi.distribution.Gaussian(refs.dyadic_vec(3, k + 3, scale=0.125), 0.5 + 0.25 * k, geometry=_A.domain_geometry, name="x")
-    _y = cuqi.distribution.Gaussian(_A, 0.25 + 0.125 * k, name="y")
+    _x = mk(cuqi.distribution.Gaussian, _slot=slots[0], mean=refs.dyadic_vec(3, k + 3, scale=0.125), cov=0.5 + 0.25 * k,
+            geometry=_A.domain_geometry, name="x")
+    _y = mk(cuqi.distribution.Gaussian, _slot=slots[1], mean=_A, cov=0.25 + 0.125 * k, name="y")
     return _A, _x, _y
 
 
@@ -649,6 +821,25 @@ def fingerprint(obj, w, light=False):
                 fp.append(("attr:" + v, guard(lambda: describe_attr(getattr(obj, v)))))
     if kd == "lik":
         fp.append(("data", num(guard(lambda: obj.data))))
+    if getattr(w, "extra_props", False) and kd in ("dist", "lik"):
+        # wrapper worlds: what the library's samplers read off a prior / posterior (the log-density of an implicit prior is
+        # not a number, so its parameters are only seen through these) - the stacked square-root precision, its product with
+        # the mean, and the parameters of the distribution a Posterior / Likelihood carries
+        for v in ("sqrtprec", "sqrtprecTimesMean"):
+            if hasattr(type(obj), v):
+                fp.append((v, guard(lambda: describe_attr(getattr(obj, v)))))
+        for pre, _inner in (("prior", guard(lambda: obj.prior) if hasattr(obj, "prior") else None),
+                            ("distribution", guard(lambda: obj.distribution) if kd == "lik" else None)):
+            if kind_of(_inner) != "dist":
+                continue
+            imv = guard(lambda: tuple(_inner.get_mutable_variables()))
+            for v in (() if (len(imv) == 2 and imv[0] == "exc") else imv):
+                if v not in ("likelihood", "prior"):
+                    fp.append(("%s.attr:%s" % (pre, v), guard(lambda: describe_attr(getattr(_inner, v)))))
+            fp.append((pre + ".dim", guard(lambda: _inner.dim)))
+            for v in ("sqrtprec", "sqrtprecTimesMean"):
+                if hasattr(type(_inner), v):
+                    fp.append(("%s.%s" % (pre, v), guard(lambda: describe_attr(getattr(_inner, v)))))
     ok_names = isinstance(names, tuple) and not (len(names) == 2 and names[0] == "exc")
     for tag, vals in (("A", w.vals), ("B", w.valsB)):
         a = args_for(names, vals) if ok_names else None
@@ -656,6 +847,10 @@ def fingerprint(obj, w, light=False):
             fp.append(("logd" + tag, "n/a"))
         else:
             fp.append(("logd" + tag, num(guard(lambda: obj.logd(**a)))))
+    if getattr(w, "valsCx", None) is not None:
+        # unknown-dimension worlds: a probe of the size of the sibling conditioning value
+        a = args_for(names, w.valsCx) if (ok_names and len(names) == 1) else None
+        fp.append(("logdC", "n/a" if a is None else num(guard(lambda: obj.logd(**a)))))
     # gradient w.r.t. the single free parameter
     if ok_names and len(names) == 1 and names[0] in w.vals and hasattr(obj, "gradient"):
         fp.append(("gradient", num(guard(lambda: obj.gradient(GR.copy_val(w.vals[names[0]]))))))
@@ -713,6 +908,46 @@ def cond_subsets(names):
 GIBBS_VARS = {"x", "d", "s"}
 
 
+def assignable(obj):
+    """parameters of a distribution the class offers a setter for (its public mutable variables) that currently hold a number /
+    vector / matrix: these can be assigned another value of the same shape"""
+    mv = guard(lambda: list(obj.get_mutable_variables())) if hasattr(obj, "get_mutable_variables") else []
+    out = []
+    for v in (mv if isinstance(mv, list) else []):
+        if v.startswith("_") or v in ("likelihood", "prior"):
+            continue
+        val = guard(lambda: getattr(obj, v))
+        if val is None or (isinstance(val, tuple) and len(val) == 2 and val[0] == "exc") or (callable(val) and not hasattr(val, "shape")):
+            continue
+        n = num(val)
+        if isinstance(n, np.ndarray) and n.size > 0 and np.all(np.isfinite(n)):
+            out.append(v)
+    return out
+
+
+def assign_value(old):
+    """the other value: twice the current one (stays positive / positive definite, exact in binary); a parameter that is zero
+    everywhere (a zero mean) is shifted by 1/2 instead"""
+    import scipy.sparse as sps
+    if sps.issparse(old):
+        return old * 2.0
+    if np.any(np.asarray(old, dtype=float) != 0):
+        return old * 2.0
+    return old + 0.5
+
+
+def tracked_assign_ops(w):
+    """joint worlds: the factors the joint was built from are assigned to as well (the joint holds these very objects)"""
+    out = []
+    if w.cell.get("assign") and kind_of(w.objs[0]) == "joint":
+        for j in range(1, w.ntracked):
+            if kind_of(w.objs[j]) == "dist":
+                for a in assignable(w.objs[j]):
+                    if not any(r[0] == j and r[1] == a for r in w.inforce):
+                        out.append(("assign", j, a))
+    return out
+
+
 def ops_for(w, i):
     """Operation alphabet for target index i in world w: list of (opname, i, arg)."""
     import cuqi
@@ -754,6 +989,10 @@ def ops_for(w, i):
     if kd == "joint" and set(names) == GIBBS_VARS and w.graph is not None and w.graph.gid in ("G1", "G2", "G7"):
         ops.append(("gibbs_new", i, None))
         ops.append(("gibbs_old", i, None))
+    if w.cell.get("assign") and kd == "dist":
+        for a in assignable(obj):
+            if not any(r[0] == i and r[1] == a for r in w.inforce):
+                ops.append(("assign", i, a))      # a parameter of this object := another value
     if kd in ("dist", "lik", "joint") and names:
         ops.append(("refusals", i, None))     # operations the library is expected to refuse: they must not leave traces either
     if kd in ("dist", "lik") and consumer_subops(w, i):
@@ -936,6 +1175,7 @@ def do_op(w, op):
     obj = w.objs[i]
     v = w.vals
     w.last_results = {}
+    w.last_assign = None
     if name in CLOSING:
         if name in BUNDLES:
             subs = BUNDLES[name](w, i)
@@ -968,6 +1208,12 @@ def do_op(w, op):
             return "join", cuqi.distribution.JointDistribution(obj, *[w.objs[_j] for _j in arg])
         if name == "call0":
             return "call0", obj()
+        if name == "assign":
+            _old = getattr(obj, arg)
+            _newv = assign_value(_old)
+            w.last_assign = [i, arg, _old, _newv]
+            setattr(obj, arg, _newv)
+            return "assign:" + arg, None
         if name == "enable_fd":
             tgt = obj.likelihood if hasattr(obj, "likelihood") and hasattr(obj.likelihood, "enable_FD") else obj
             tgt.enable_FD(epsilon=1e-3)        # coarse step: the switch is visible in the gradient entry
@@ -1009,8 +1255,10 @@ def do_op(w, op):
 def op_str(w, op):
     name, i, arg = op
     s = "%s@%d" % (name, i)
-    if name == "cond":
+    if name in ("cond", "condB"):
         s += "{%s}" % ",".join(arg)
+    elif name == "assign":
+        s += ".%s" % arg
     elif name == "apply":
         s += "(obj%d)" % arg
     elif name == "join":
@@ -1047,7 +1295,9 @@ class Explorer:
             w.fp[i] = f1
             d = fp_diff(f1, f2)
             if d is not None:
-                self.report(w, [], i, d, "fingerprint", f1, f2, confirmed=True)
+                if not getattr(self, "unstable", False):
+                    self.report(w, [], i, d, "fingerprint", f1, f2, confirmed=True)
+                self.unstable = True     # the read-only operations of the fingerprint alter the object: reported once
         return w
 
     def report(self, w, history, j, entry, opname, before, after, confirmed, latent_log=None, new_object=False):
@@ -1061,7 +1311,14 @@ class Explorer:
                 role = "new"
             elif role == "pool":
                 role = "sibling" if w.src[j] != tgt and w.src[tgt] != j else "relative"
-        sig = "C11|%s|%s:%s|%s" % (cls, opname, role, entry.split(":")[0] if entry.startswith("attr:") else entry)
+        # entries of the assignment oracles carry a prefix: fresh: (differs from a freshly built object with the value),
+        # view: (a view differs from the view made now), restore: (assigning the old value back does not restore the object)
+        pre = ""
+        for _p in ("fresh:", "view:", "restore:"):
+            if entry.startswith(_p):
+                pre, entry = _p, entry[len(_p):]
+        short = entry.split(":")[0] if ".attr:" in entry or entry.startswith("attr:") else entry
+        sig = "C11|%s|%s:%s|%s" % (cls, opname, role, pre + short)
         if not confirmed:
             sig += "|latent"
         self.nfail[sig] = self.nfail.get(sig, 0) + 1
@@ -1070,7 +1327,8 @@ class Explorer:
             return
         b = dict(before).get(entry)
         a = dict(after).get(entry)
-        if entry == "entries":
+        entry = pre + entry
+        if entry.endswith("entries"):
             b, a = [n for n, _ in before], [n for n, _ in after]
         self.res.fail(sig, "[%s cat=%d] after %s the %s object #%d (%s) changed its '%s': %s -> %s"
                       % (self.label(), self.cell["cat"], " ; ".join(op_str(w, o) for o in history) or "taking its fingerprint twice",
@@ -1089,12 +1347,116 @@ class Explorer:
                 bad.append((j, d, w.fp[j], f, False))
         return bad
 
+    def after_assign(self, w, extra_bad):
+        """An attribute of object i was just assigned.  The object itself and its VIEWS (World.views_of) legitimately change and
+        are re-baselined - every other live object is compared with its earlier fingerprint by the caller.  Oracles for the
+        assigned object: the value reads back; it is what a freshly built object with that value is (same derivation from an
+        original BUILT with the value); a Likelihood view of it is the view made now."""
+        res = self.res
+        i, attr, old, newv = w.last_assign
+        L = [i] + w.views_of(i)
+        first = not w.inforce
+        w.inforce.append([i, attr, old, {j: w.fp[j] for j in L}])
+        for j in L:
+            w.fp[j] = fingerprint(w.objs[j], w)
+        _t = w.objs[i]
+        res.count("assign:%s.%s" % (type(_t).__name__, attr))
+        res.outcomes.add("assign:%s.%s:%s" % (type(_t).__name__, attr, "original" if i == 0 else ("factor" if i < w.ntracked else w.how.get(i))))
+        rb = guard(lambda: describe_attr(getattr(_t, attr)))
+        res.evaluations += 1
+        if not same(rb, num(newv)):
+            extra_bad.append((i, "readback", [("readback", num(newv))], [("readback", rb)], False))
+        if first:
+            for j, f0 in self.assign_reference(w, i, attr, newv).items():
+                res.evaluations += 1
+                d = fp_diff(f0, w.fp[j])
+                if d is not None:
+                    extra_bad.append((j, "fresh:" + d, f0, w.fp[j], False))
+        else:
+            res.count("assign:no_reference:not_the_first_assignment")
+        for j in L[1:]:
+            if kind_of(w.objs[j]) == "lik":
+                _n = w.arg.get(j)
+                _v = guard(lambda: _t.to_likelihood(GR.copy_val(w.vals[_n if _n is not None else _t.name])))
+                res.evaluations += 1
+                if kind_of(_v) == "lik":
+                    d = fp_diff(fingerprint(_v, w), w.fp[j])
+                    if d is not None:
+                        extra_bad.append((j, "view:" + d, fingerprint(_v, w), w.fp[j], False))
+                del _v
+
+    def undo_assign(self, w):
+        """assign the old value back; -> [(index, entry, fingerprint before the assignment, fingerprint now)] for the objects
+        that are not what they were before the assignment"""
+        i, attr, old, saved = w.inforce.pop()
+        out = []
+        r = guard(lambda: setattr(w.objs[i], attr, old))
+        for j in sorted(saved):
+            if j < len(w.objs):
+                f2 = fingerprint(w.objs[j], w)
+                self.res.evaluations += 1
+                d = fp_diff(saved[j], f2)
+                if d is not None or isinstance(r, tuple):
+                    out.append((j, d or "raises", saved[j], f2))
+                w.fp[j] = saved[j]
+        return out
+
+    def assign_reference(self, w, i, attr, newv):
+        """{object index: fingerprint} of object i (and of the joint that holds it) in a world whose root original was BUILT
+        with attr=newv and from which object i was derived by the same operations (a conditioning variable that the built-in
+        value makes disappear is left out).  Only for the worlds built by World.mk; {} when no such reference exists."""
+        chain, j = [], i
+        while j >= w.ntracked:
+            chain.append((w.how.get(j), w.arg.get(j)))
+            j = w.src[j]
+        chain.reverse()
+        root = j
+        key = (root, tuple((h, tuple(a) if isinstance(a, (tuple, list)) else a) for h, a in chain), attr)
+        cache = self.__dict__.setdefault("_assign_ref", {})
+        if key not in cache:
+            cache[key] = self._assign_reference(w, i, root, chain, attr, newv)
+        if not cache[key]:
+            self.res.count("assign:no_reference:world_not_rebuildable")
+        return {(i if j == "target" else j): f for j, f in cache[key].items()}
+
+    def _assign_reference(self, w, i, root, chain, attr, newv):
+        if self.cell["kind"] != "special":
+            return {}
+        w0 = guard(lambda: World(self.cell, override=(root, attr, newv)))
+        if not isinstance(w0, World) or not w0.override_used:
+            return {}
+        cur = root
+        for how, arg in chain:
+            if how in ("cond", "condB"):
+                pn = guard(lambda: list(w0.objs[cur].get_parameter_names()))
+                if not isinstance(pn, list):
+                    return {}
+                a2 = tuple(n for n in arg if n in pn)
+                op = (how, cur, a2) if a2 else ("call0", cur, None)
+            elif how == "call0":
+                op = ("call0", cur, None)
+            else:
+                return {}
+            _o, _n = do_op(w0, op)
+            if _n is None:
+                return {}
+            w0.add(_n, "pool", cur, op[0], op[2])
+            cur = len(w0.objs) - 1
+        ref = {"target": fingerprint(w0.objs[cur], w0)}
+        if i < w.ntracked:
+            for v in w.views_of(i):
+                ref[v] = fingerprint(w0.objs[v], w0)
+        return ref
+
     def step(self, w, op):
         """Apply op in world w; fingerprint; returns (outcome, alterations, name_problem)."""
         n0 = len(w.objs)
         outcome, _new = do_op(w, op)
         self.res.transitions += 1
         self.res.count("op:" + op[0])
+        extra_bad = []
+        if op[0] == "assign" and outcome.startswith("assign:"):
+            self.after_assign(w, extra_bad)
         if outcome.startswith("refused"):
             self.res.refused += 1
         if op[0] in CLOSING:
@@ -1118,7 +1480,12 @@ class Explorer:
             for _j in range(len(w.objs)):
                 if w.src[_j] == op[1] and getattr(w, "how", {}).get(_j) == "to_likelihood":
                     w.fp[_j] = fingerprint(w.objs[_j], w)
-        bad = self.check_all(w, n0)
+        bad = self.check_all(w, n0) + extra_bad
+        if op[0] == "assign" and w.inforce and self.cell.get("assign") != "full":
+            # the assignment closes the history: the old value is assigned back (the object must then be what it was) and the
+            # sibling histories continue on the same live world
+            for (_j, _d, _f, _f2) in self.undo_assign(w):
+                bad.append((_j, "restore:" + _d, _f, _f2, False))
         if op[0] == "enable_fd":
             _t = w.objs[op[1]]
             for _x in ([_t.likelihood] if hasattr(_t, "likelihood") and hasattr(_t.likelihood, "disable_FD") else []) + \
@@ -1134,10 +1501,15 @@ class Explorer:
         # happened"): same outcome (done / refused with the same exception type) and, for consumers, the same numbers
         f0 = None
         if op[1] < w.ntracked and (op[0] != "apply" or op[2] < w.ntracked):
-            key = (op[0], op[1], tuple(op[2]) if isinstance(op[2], (tuple, list)) else op[2])
+            # (assignments made earlier in this history to an original / tracked object and still in force belong to the
+            # fresh world as well; the one just made is the operation itself)
+            pre = tuple((r[0], r[1]) for r in w.inforce if r[0] < w.ntracked and not (op[0] == "assign" and r[0] == op[1] and r[1] == op[2]))
+            key = (pre, op[0], op[1], tuple(op[2]) if isinstance(op[2], (tuple, list)) else op[2])
             cache = self.__dict__.setdefault("_fresh_new_fp", {})
             if key not in cache:
                 w0 = World(self.cell)
+                for _i, _a in pre:
+                    do_op(w0, ("assign", _i, _a))
                 _o0, _n0 = do_op(w0, op)
                 cache[key] = (_o0, fingerprint(_n0, w0) if _n0 is not None else None, dict(w0.last_results))
             o0, f0, r0 = cache[key]
@@ -1267,6 +1639,11 @@ class Explorer:
     def explore(self):
         self.w = self.fresh()
         self.log = []
+        if getattr(self, "unstable", False):
+            # reading a fresh object twice gives two answers: that is the finding of this cell; histories on top of it would
+            # only repeat it under the name of every operation
+            self.res.count("cell_closed:fingerprint_alters_the_object")
+            return
         self.dfs([])
 
     def state_key(self, w):
@@ -1274,7 +1651,8 @@ class Explorer:
         for j in range(w.ntracked, len(w.objs)):
             f = dict(w.fp[j])
             desc.append("%s%s" % (f.get("class"), f.get("parameter_names", f.get("argument_names"))))
-        return "%s|%s" % (self.label(), "+".join(sorted(desc)))
+        asg = ",".join(sorted("%s.%s" % ("orig" if r[0] < w.ntracked else "copy", r[1]) for r in w.inforce))
+        return "%s|%s%s" % (self.label(), "+".join(sorted(desc)), ("|assigned:" + asg) if asg else "")
 
     def dfs(self, history, newest=None):
         res = self.res
@@ -1287,6 +1665,8 @@ class Explorer:
         naming = self.cell["kind"] == "naming"
         for i in targets:
             allops += naming_ops_for(self.w, i) if naming else ops_for(self.w, i)
+        if not naming:
+            allops += tracked_assign_ops(self.w)
         if naming and not history:
             # the cell covers the sub-tree below ONE first operation; the size of the root alphabet is part of the bound
             n_exp = naming_first_ops(self.cell["world"], self.cell["focus"])
@@ -1307,6 +1687,7 @@ class Explorer:
             w = self.w
             self.outs = self.outs[:len(history)]
             n0 = len(w.objs)
+            n_inforce = len(w.inforce)
             self.log.append(op_str(w, op))
             outcome, bad, nameprob = self.step(w, op)
             self.outs.append(outcome)
@@ -1361,8 +1742,21 @@ class Explorer:
                 res.state(self.state_key(self.w) + "|after:" + op[0])
                 res.traces += 1
                 continue
+            if op[0] == "assign" and len(w.inforce) == n_inforce and outcome.startswith("assign:"):
+                # the assignment closed the history (it is already undone)
+                res.state(self.state_key(self.w) + "|after:assign")
+                res.traces += 1
+                continue
             self.dfs(h2, newest=(len(w.objs) - 1) if len(w.objs) > n0 else None)
             self.w.truncate(n0)
+            while len(self.w.inforce) > n_inforce:
+                # leaving the sub-tree of an assignment: the old value is assigned back; should that not restore the objects the
+                # live world is rebuilt (the restore oracle itself is decided where assignments close a history)
+                if self.undo_assign(self.w):
+                    res.count("assign_undo_not_clean")
+                    self.w, _t0, _ = self.replay(history)
+                    self.log = [op_str(self.w, o) for o in history]
+                    break
 
 
 def _short(v):
